@@ -1,5 +1,5 @@
 import ast
-from copy import deepcopy
+from copy import copy, deepcopy
 from typing import Any, Dict, List, Optional, Set, Tuple, Union, cast
 
 from graphql import (
@@ -55,6 +55,7 @@ from .constants import (
     DEFAULT_KEYWORD,
     DISCRIMINATOR_KEYWORD,
     FIELD_CLASS,
+    INCLUDE_DIRECTIVE_NAME,
     LIST,
     LITERAL,
     MIXIN_FROM_NAME,
@@ -63,6 +64,7 @@ from .constants import (
     MODEL_REBUILD_METHOD,
     OPTIONAL,
     PYDANTIC_MODULE,
+    SKIP_DIRECTIVE_NAME,
     TYPENAME_ALIAS,
     TYPENAME_FIELD_NAME,
     TYPING_MODULE,
@@ -301,20 +303,33 @@ class ResultTypesGenerator:
         return [class_def] + extra_classes
 
     def _resolve_selection_set(
-        self, selection_set: SelectionSetNode, root_type: str = ""
+        self,
+        selection_set: SelectionSetNode,
+        root_type: str = "",
+        conditional_directives: Tuple[DirectiveNode, ...] = (),
     ) -> Tuple[List[FieldNode], Set[str]]:
+        """Fields of conditionally (@skip/@include) spread fragments are conditional,
+        directives of such fragments are passed in conditional_directives."""
         fields = []
         fragments = set()
         for selection in selection_set.selections:
             if isinstance(selection, FieldNode):
-                fields.append(selection)
+                fields.append(
+                    self._get_conditional_field(selection, conditional_directives)
+                )
             elif isinstance(selection, FragmentSpreadNode):
                 fragment_def = self.fragments_definitions[selection.name.value]
                 root_type_def = self.schema.type_map[root_type]
                 fragment_root_type_def = self.schema.type_map[
                     fragment_def.type_condition.name.value
                 ]
-                if not self._unpack_fragment(fragment_def, root_type_def):
+                spread_directives = conditional_directives + tuple(
+                    self._get_conditional_directives(selection)
+                )
+                if (
+                    not self._unpack_fragment(fragment_def, root_type_def)
+                    and not spread_directives
+                ):
                     fragments.add(selection.name.value)
                 elif fragment_def.type_condition.name.value == root_type or (
                     is_abstract_type(fragment_root_type_def)
@@ -325,7 +340,7 @@ class ResultTypesGenerator:
                 ):
                     self._unpacked_fragments.add(selection.name.value)
                     sub_fields, sub_fragments = self._resolve_selection_set(
-                        fragment_def.selection_set, root_type
+                        fragment_def.selection_set, root_type, spread_directives
                     )
                     fields.extend(sub_fields)
                     fragments = fragments.union(sub_fragments)
@@ -335,7 +350,10 @@ class ResultTypesGenerator:
                 )
                 if root_type_value:
                     sub_fields, sub_fragments = self._resolve_selection_set(
-                        selection.selection_set, root_type_value
+                        selection.selection_set,
+                        root_type_value,
+                        conditional_directives
+                        + tuple(self._get_conditional_directives(selection)),
                     )
                     fields.extend(sub_fields)
                     fragments = fragments.union(sub_fragments)
@@ -343,6 +361,27 @@ class ResultTypesGenerator:
             set(fragments)
         )
         return fields, fragments
+
+    def _get_conditional_directives(
+        self, node: Union[FragmentSpreadNode, InlineFragmentNode]
+    ) -> List[DirectiveNode]:
+        return [
+            d
+            for d in node.directives or []
+            if d.name.value in (SKIP_DIRECTIVE_NAME, INCLUDE_DIRECTIVE_NAME)
+        ]
+
+    def _get_conditional_field(
+        self, field: FieldNode, conditional_directives: Tuple[DirectiveNode, ...]
+    ) -> FieldNode:
+        if not conditional_directives:
+            return field
+        # copy, nodes of fragments are shared between operations
+        conditional_field = copy(field)
+        conditional_field.directives = (
+            tuple(field.directives or ()) + conditional_directives
+        )
+        return conditional_field
 
     def _get_inline_fragment_root_type(
         self, selection_value: str, root_type: str
@@ -384,14 +423,27 @@ class ResultTypesGenerator:
     def _add_typename_field_to_selections(
         self, resolved_fields: List[FieldNode], selection_set: SelectionSetNode
     ) -> Tuple[List[FieldNode], Tuple[SelectionNode, ...]]:
-        field_names = {f.name.value for f in resolved_fields}
-        if TYPENAME_FIELD_NAME not in field_names:
+        def is_typename(field: FieldNode) -> bool:
+            return not field.alias and field.name.value == TYPENAME_FIELD_NAME
+
+        def is_conditional(field: FieldNode) -> bool:
+            return any(
+                d.name.value in (SKIP_DIRECTIVE_NAME, INCLUDE_DIRECTIVE_NAME)
+                for d in field.directives or []
+            )
+
+        # __typename selected only in conditionally included fragment can be absent,
+        # unconditional one makes conditional ones redundant
+        other_fields = [
+            f for f in resolved_fields if not (is_typename(f) and is_conditional(f))
+        ]
+        if not any(is_typename(f) for f in other_fields):
             typename_field = FieldNode(name=NameNode(value=TYPENAME_FIELD_NAME))
-            return [typename_field, *resolved_fields], (
+            return [typename_field, *other_fields], (
                 typename_field,
                 *selection_set.selections,
             )
-        return resolved_fields, selection_set.selections
+        return other_fields, selection_set.selections
 
     def _get_field_name(self, field: FieldNode) -> str:
         if field.alias:
